@@ -21,7 +21,8 @@ from .. import common, tlc
 INV = ["TypeOK", "DirExact", "DiskIsWant", "LoadReturnsLast", "LoadNewReturnsLast", "LoadSibReturnsLast", "MergeSeesPrevious", "DeleteWorks", "MemIsDisk"]
 RTINV = ["RtIdentity", "RtLazyIsEager", "RtDir", "RtNoDeadlock"]
 ALLOPS = ["Save", "Load", "LoadNew", "SaveMerge", "HarvSame", "HarvFresh", "Delete"]
-SITES = ["save", "load", "loadNewTest", "mergeTest", "mergeLoad", "harvTest", "harvLoad", "harvRemove", "delete"]
+SITES = ["save", "load", "loadNewTest", "mergeTest", "mergeLoad", "harvTest", "harvLoad", "harvRemove", "harvSave", "delete"]
+HARV_SITES = ["harvTest", "harvLoad", "harvRemove", "harvSave"]
 EXTS = ["", ".h5", ".dmp"]
 DOTTED = ".5"      # the logical name 'data_T0.5' (a dot, no engine extension) with the sibling 'data_T0.25' next to it
 DOTTED_OPS = ["Save", "Load", "LoadNew", "SaveMerge", "HarvFresh", "Delete", "SaveSib", "LoadSib"]
@@ -52,16 +53,17 @@ def _set(x):
     return set(x) if x else tlc.Raw("{}")
 
 
-def run_naming(ext, eng, maxlen, pols=("none",), raw=(), deff=(), emit=False, tag="", namerule="append", **kw):
-    consts = dict(NameExt=ext, NameRule=namerule, Engine=eng, MaxLen=maxlen, Policies=_set(pols),
+def run_naming(ext, eng, maxlen, pols=("none",), raw=(), deff=(), emit=False, tag="", namerule="append", ctor=None, ctorsites=(), **kw):
+    consts = dict(NameExt=ext, NameRule=namerule, Engine=eng, CtorEngine=ctor or eng, CtorEngSites=_set(ctorsites),
+                  MaxLen=maxlen, Policies=_set(pols),
                   OpsOn=_set(DOTTED_OPS if ext == DOTTED else ALLOPS),
                   RawSites=_set(raw), DefEngSites=_set(deff), RtRule="ok")
     tail = "".join("INVARIANT %s\n" % i for i in INV) + ("INVARIANT EmitCase\n" if emit else "") + "CHECK_DEADLOCK FALSE\n"
-    return _tlc("DsStore", consts, tail, name="MC_DsStore_%s%s_%s" % (eng, ext.replace(".", "_"), tag), **kw)
+    return _tlc("DsStore", consts, tail, name="MC_DsStore_%s%s_%s%s" % (eng, ext.replace(".", "_"), tag, "_ctor" if ctor else ""), **kw)
 
 
 def run_rt(ext, eng, rule="ok", emit=False, **kw):
-    consts = dict(NameExt=ext, NameRule="append", Engine=eng, MaxLen=0, Policies=_set(["none"]), OpsOn=_set([]),
+    consts = dict(NameExt=ext, NameRule="append", Engine=eng, CtorEngine=eng, CtorEngSites=_set([]), MaxLen=0, Policies=_set(["none"]), OpsOn=_set([]),
                   RawSites=_set([]), DefEngSites=_set([]), RtRule=rule)
     tail = "INIT RtInit\nNEXT RtNext\n" + "".join("INVARIANT %s\n" % i for i in RTINV) \
         + ("INVARIANT RtEmit\n" if emit else "") + "CHECK_DEADLOCK FALSE\n"
@@ -115,6 +117,7 @@ def check_hist(c):
     ext, eng = c["ext"], c["engine"]
     name = c.get("name", "data" + ext)
     sib = c.get("sib")
+    ctor = c.get("ctor", eng)
     td = tempfile.mkdtemp(prefix="c14-", dir=common.scratch("c14"))
     cwd = os.getcwd()
     os.chdir(td)
@@ -148,17 +151,21 @@ def check_hist(c):
                     xyz.save_merge_ds(piece_ds(st["p"]), name, overwrite=POL[st["pol"]], engine=eng)
                 elif op in ("HarvFresh", "HarvSame"):
                     if op == "HarvFresh" or h is None:
-                        h = xyz.Harvester(runner, data_name=name, engine=eng)
-                    h.add_ds(piece_ds(st["p"]), overwrite=POL[st["pol"]])
+                        h = xyz.Harvester(runner, data_name=name, engine=ctor)
+                    if ctor == eng:
+                        h.add_ds(piece_ds(st["p"]), overwrite=POL[st["pol"]])
+                    else:   # the engine is given with the call, not (only) at construction
+                        h.add_ds(piece_ds(st["p"]), overwrite=POL[st["pol"]], engine=eng)
                 elif op == "Delete":
-                    (h or xyz.Harvester(runner, data_name=name, engine=eng)).delete_ds()
+                    (h if (h is not None and ctor == eng) else xyz.Harvester(runner, data_name=name, engine=eng)).delete_ds()
                     h = None
             except Exception as e:  # noqa
                 got_st, exc = "raises", "%s: %s" % (type(e).__name__, str(e)[:160])
             where = "step %d (%s%s) of %s with name %r%s, engine %s" % (
                 n + 1, op, "" if st["pol"] == "none" else ", overwrite=%s" % POL[st["pol"]],
-                [s["op"] for s in c["hist"]], name, (" (sibling %r)" % sib) if ext == DOTTED else "", eng)
-            key = dict(part="naming", op=op, hasext=ext in (".h5", ".dmp"), dotted=(ext == DOTTED), engine=eng)
+                [s["op"] for s in c["hist"]], name, (" (sibling %r)" % sib) if ext == DOTTED else "",
+                eng if ctor == eng else "%s given per call (Harvester constructed with %s)" % (eng, ctor))
+            key = dict(part="naming", op=op, percall=(ctor != eng), hasext=ext in (".h5", ".dmp"), dotted=(ext == DOTTED), engine=eng)
             want_st = st["st"] if st["st"] in ("ok", "blank") else "raises"
             if got_st != want_st:
                 if got_st == "blank":
@@ -430,6 +437,11 @@ def run(rep):
         for eng in ENGINES:
             jobs[("A", DOTTED, eng)] = ex.submit(run_naming, DOTTED, eng, len_a if thorough else len_a - 1, ("none",), emit=True,
                                                  tag="A", workers=1, coverage=True)
+        # the engine given with the call differs from the one the Harvester was constructed with
+        for eng, ctor in ([("joblib", "h5netcdf"), ("h5netcdf", "joblib")] if thorough else [("joblib", "h5netcdf")]):
+            jobs[("C", "", eng)] = ex.submit(run_naming, "", eng, len_a - 1, ("none",), emit=True, tag="C", ctor=ctor,
+                                             workers=1, coverage=True)
+        jobs[("ctorsites", "all")] = ex.submit(run_naming, "", "joblib", 3, ctor="h5netcdf", ctorsites=HARV_SITES, tag="ctorsites", workers=1)
         jobs[("namerule", "splitext")] = ex.submit(run_naming, DOTTED, "h5netcdf", 3, namerule="splitext", tag="splitext", workers=1)
         # deviating implementations the invariants must reject
         jobs[("pinned", "", "h5netcdf")] = ex.submit(run_naming, "", "h5netcdf", 3, raw=["mergeTest", "harvTest", "harvRemove"],
@@ -443,7 +455,7 @@ def run(rep):
             jobs[("rtrule", rule)] = ex.submit(run_rt, "", eng, rule=rule, workers=1)
         results = {k: f.result() for k, f in jobs.items()}
     for k, r in results.items():
-        if k[0] in ("pinned", "rtrule", "namerule") or (k[0] == "site" and k[1] != "harvRemove"):
+        if k[0] in ("pinned", "rtrule", "namerule", "ctorsites") or (k[0] == "site" and k[1] != "harvRemove"):
             if r.violated is None:
                 raise tlc.TLCError("self-test failed: deviating model %r is not rejected by the invariants" % (k,))
     rep.note("self-test: TLC rejects the pinned naming (%s for 'data'/h5netcdf, %s for 'data.dmp'/joblib), every single site "
@@ -452,11 +464,12 @@ def run(rep):
                  ", ".join("%s:%s" % (s, results[("site", s)].violated) for s in SITES if s != "harvRemove"),
                  ", ".join("%s:%s" % (k[1], r.violated) for k, r in results.items() if k[0] == "rtrule"),
                  results[("site", "harvRemove")].violated))
-    rep.note("self-test: TLC rejects NameRule='splitext' (unknown suffix replaced by the extension) for 'data_T0.5': %s"
-             % results[("namerule", "splitext")].violated)
+    rep.note("self-test: TLC rejects NameRule='splitext' (unknown suffix replaced by the extension) for 'data_T0.5': %s; "
+             "and Harvester sites using the constructor's engine instead of the call's: %s"
+             % (results[("namerule", "splitext")].violated, results[("ctorsites", "all")].violated))
     hists, rts = [], []
-    for (kind, ext, eng), r in [(k, r) for k, r in results.items() if k[0] in ("A", "B", "rt")]:
-        rep.add_tlc("DsStore %s name=%s engine=%s" % ({"A": "naming", "B": "naming+policies", "rt": "round-trip"}[kind],
+    for (kind, ext, eng), r in [(k, r) for k, r in results.items() if k[0] in ("A", "B", "C", "rt")]:
+        rep.add_tlc("DsStore %s name=%s engine=%s" % ({"A": "naming", "B": "naming+policies", "C": "naming, engine per call", "rt": "round-trip"}[kind],
                                                        "data_T0.5" if ext == DOTTED else "data" + ext, eng), r)
         if r.violated:
             raise tlc.TLCError("DsStore.tla: invariant %s violated (%s, data%s, %s)" % (r.violated, kind, ext, eng))
@@ -500,7 +513,7 @@ def run(rep):
         if "hist" in c:
             ops = [s["op"] for s in c["hist"]]
             nontrivial = any(o in ("SaveMerge", "HarvFresh", "HarvSame", "Delete") for o in ops[1:])
-            rep.add_case(["hist", c["ext"], c["engine"], [(s["op"], s["pol"]) for s in c["hist"]]], nontrivial=nontrivial,
+            rep.add_case(["hist", c["ext"], c["engine"], c.get("ctor"), [(s["op"], s["pol"]) for s in c["hist"]]], nontrivial=nontrivial,
                          sample=c if (len(rep.samples) < 2 and nontrivial) else None)
         else:
             rep.add_case(["rt", c["ext"], c["engine"], c["cfg"]], sample=c if len(rep.samples) < 4 else None)
